@@ -173,6 +173,11 @@ func (fv *FV) skolemizeGoal(phi string) (decls, hyps []string, rest string, ok b
 						mark := "keep$" + cleanName(srt)
 						fv.declare(mark, fmt.Sprintf("(declare-fun %s (%s) Bool)", mark, srt))
 						hyps = append(hyps, "("+mark+" "+t.subst(m).String()+")")
+						// an element read `(select A idx)` among them also names its address for the frame facts
+						// ("elements outside the window are unchanged"), which are instantiated only at marked addresses
+						if fv.declared["omark"] && t.isCall("select", 3) && t.list[2].isCall("at$", 3) {
+							hyps = append(hyps, "(omark "+t.list[2].subst(m).String()+")")
+						}
 					}
 				}
 				body = body.list[1] // drop the pattern annotation
